@@ -186,10 +186,16 @@ func (k *checker) explore(n, variant int) {
 	cbTag := byte(n*4 + variant)
 	txs := []interfaces.Transaction{blockkit.Coinbase(k.params, height, cbTag)}
 	for i := 1; i < n; i++ {
-		txs = append(txs, blockkit.Transfer(variant*40+i))
+		switch {
+		case variant == 2 && i%2 == 0, variant == 3:
+			// variant 2: transfers and input-less transactions alternate; variant 3: only input-less
+			txs = append(txs, inputless(n*40+i))
+		default:
+			txs = append(txs, blockkit.Transfer(variant*40+i))
+		}
 	}
 	base := blockkit.Block(k.params, height, txs)
-	k.judge("valid", fmt.Sprintf("coinbase + %d transfers", n-1), n, base)
+	k.judge("valid", fmt.Sprintf("coinbase + %d transactions (variant %d)", n-1, variant), n, base)
 	if len(k.samples) < 4 && (n == 1 || n == 3 || n == 6 || n == 9) && variant == 0 {
 		ids := []string{}
 		for _, t := range txs {
@@ -199,6 +205,9 @@ func (k *checker) explore(n, variant int) {
 		k.samples = append(k.samples, map[string]interface{}{"n": n, "tx_id_prefixes": ids, "merkle_root": hex.EncodeToString(base.Header.MerkleRoot[:]), "block_hash": base.Header.Hash().String(), "parent_nonce": base.Header.AuxPow.ParBlockHeader.Nonce})
 	}
 	other := blockkit.Transfer(900 + n)
+	if variant >= 2 {
+		other = inputless(5000 + n*2 + variant)
+	}
 	otherCb := blockkit.Coinbase(k.params, height, cbTag+100)
 
 	// --- family A: same sealed header, changed list --------------------------------------------
@@ -340,7 +349,7 @@ func main() {
 
 	maxN := r.Pick(17, 33)
 	for n := 1; n <= maxN; n++ {
-		for v := 0; v < 2; v++ {
+		for v := 0; v < 4; v++ {
 			k.explore(n, v)
 		}
 	}
@@ -370,7 +379,7 @@ func main() {
 	r.Finish(evid.Coverage{
 		"evaluations":                           k.evals + int64(ns.cases),
 		"distinct_nontrivial":                   len(k.distinct) + ns.cases,
-		"rule":                                  fmt.Sprintf("transaction lists of length 1..%d (coinbase + distinct transfers, 2 variants per length), each sealed with auxpow.GenerateAuxPow + solved parent nonce at PowLimitBits 0x207fffff and accepted by CheckBlockSanity; per accepted block, with the sealed header unchanged: drop each tx, swap every pair, copy of every tx inserted at every position, every tx replaced (by a transfer / by a coinbase), coinbase moved to every position, append, repeated tails of 1..4, every merkle-root-preserving repeated tail (CVE-2012-2459 twins), every header root byte flipped; with merkle root recomputed and proof redone: root byte flips, coinbase not first, no coinbase, second coinbase / repeated coinbase at every position, copy of every tx at every position, empty list, and three still-well-formed variants that must be accepted. Oracle: header root = reference merkle root, first tx the only coinbase, ids pairwise distinct; crypto.ComputeRoot compared with the reference on every list. Node tier (chainkit, fresh real node per case): 3- and 4-transaction blocks with signed transfers x 14 list mutations under the sealed header x delivery schedules {parent then block; block then parent (orphan); grandchild, block, parent; block, grandchild, parent; parent, block, child}: every block on the active chain, read back from the store, must satisfy the rule, and the well-formed variants must get connected. distinct_nontrivial = distinct (header, id list) pairs judged + node cases", maxN),
+		"rule":                                  fmt.Sprintf("transaction lists of length 1..%d (coinbase + distinct transactions, 4 variants per length: two sets of transfers, transfers alternating with input-less NextTurnDPOSInfo/ActivateProducer transactions, input-less transactions only), each sealed with auxpow.GenerateAuxPow + solved parent nonce at PowLimitBits 0x207fffff and accepted by CheckBlockSanity; per accepted block, with the sealed header unchanged: drop each tx, swap every pair, copy of every tx inserted at every position, every tx replaced (by a transfer / by a coinbase), coinbase moved to every position, append, repeated tails of 1..4, every merkle-root-preserving repeated tail (CVE-2012-2459 twins), every header root byte flipped; with merkle root recomputed and proof redone: root byte flips, coinbase not first, no coinbase, second coinbase / repeated coinbase at every position, copy of every tx at every position, empty list, and three still-well-formed variants that must be accepted. Oracle: header root = reference merkle root, first tx the only coinbase, ids pairwise distinct; crypto.ComputeRoot compared with the reference on every list. Node tier (chainkit, fresh real node per case): 3- and 4-transaction blocks with signed transfers x 14 list mutations under the sealed header x delivery schedules {parent then block; block then parent (orphan); grandchild, block, parent; block, grandchild, parent; parent, block, child}: every block on the active chain, read back from the store, must satisfy the rule, and the well-formed variants must get connected. distinct_nontrivial = distinct (header, id list) pairs judged + node cases", maxN),
 		"exhaustive":                            true,
 		"max_n":                                 maxN,
 		"valid_blocks":                          k.byClass["valid"][0],
